@@ -7,10 +7,12 @@ import (
 	"bytes"
 	"encoding/hex"
 	"fmt"
+	"os"
 	"reflect"
 	"sort"
 	"strconv"
 	"strings"
+	"time"
 
 	"google.golang.org/protobuf/proto"
 	"google.golang.org/protobuf/types/dynamicpb"
@@ -32,16 +34,39 @@ func safeMarshal(m picobuf.Message) (b []byte, panicked string) {
 }
 
 // safeUnmarshal returns "ok", "err:<text>" or "PANIC:<text>".
+// hangLimit: a single Marshal/Unmarshal call that runs longer than this is reported as non-terminating
+// (the largest generated inputs take milliseconds). A Go goroutine cannot be killed, so the driver reports
+// the input on stderr and exits with status 97; the check turns that into a violation with this input as replay.
+const hangLimit = 25 * time.Second
+
+func reportHang(what string, m interface{}, data []byte) {
+	fmt.Fprintf(os.Stderr, "VERIF-HANG\t%s\t%T\tx%s\n", what, m, hex.EncodeToString(data))
+	os.Exit(97)
+}
+
 func safeUnmarshal(data []byte, m picobuf.Message) (res string) {
-	defer func() {
-		if r := recover(); r != nil {
-			res = "PANIC:" + strings.ReplaceAll(fmt.Sprint(r), "\t", " ")
+	done := make(chan string, 1)
+	go func() {
+		r := ""
+		defer func() {
+			if rr := recover(); rr != nil {
+				r = "PANIC:" + strings.ReplaceAll(fmt.Sprint(rr), "\t", " ")
+			}
+			done <- r
+		}()
+		if err := picobuf.Unmarshal(data, m); err != nil {
+			r = "err:" + strings.ReplaceAll(err.Error(), "\t", " ")
+			return
 		}
+		r = "ok"
 	}()
-	if err := picobuf.Unmarshal(data, m); err != nil {
-		return "err:" + strings.ReplaceAll(err.Error(), "\t", " ")
+	select {
+	case res = <-done:
+		return res
+	case <-time.After(hangLimit):
+		reportHang("Unmarshal", m, data)
+		return "HANG"
 	}
-	return "ok"
 }
 
 func emitSchemas(u *Universe, out *bufio.Writer) {
